@@ -71,6 +71,8 @@ class World:
         return "other:" + type(exc).__name__
 
     def core(self, e, beh, exc):
+        if _HUNG["now"]:       # the guard has fired: do nothing any more, so that whatever loops on our behalf runs dry
+            return False
         self.log.append((e, self.label(exc)))
         if beh == "push":
             self.nent += 1
@@ -267,11 +269,29 @@ class Hang(BaseException):
 
 
 _HUNG = {"now": False, "count": 0}
+_STOP = mp.Value("i", 0)     # set by the parent once enough hangs were seen: the remaining replays return at once
 
 
 def _alarm(*_):
+    # fires again and again (the timer is periodic): a loop that swallows BaseException swallows the first Hang
     _HUNG["now"] = True
+    _HUNG["fired"] = _HUNG.get("fired", 0) + 1
+    if _HUNG["fired"] > 60:      # half a minute of CPU after the first firing: nothing cooperative helped
+        os._exit(70)             # the parent notices the missing result (bounded wait) and reports the hang
     raise Hang()
+
+
+def _arm():
+    import signal  # noqa: PLC0415
+    signal.signal(signal.SIGVTALRM, _alarm)
+    _HUNG["now"] = False
+    _HUNG["fired"] = 0
+    signal.setitimer(signal.ITIMER_VIRTUAL, 10 if _HUNG["count"] < 3 else 2, 0.5)
+
+
+def _disarm():
+    import signal  # noqa: PLC0415
+    signal.setitimer(signal.ITIMER_VIRTUAL, 0, 0)
 
 
 def replay_path(args):
@@ -280,10 +300,10 @@ def replay_path(args):
     three hangs); whatever the interrupted replay produced is discarded."""
     import signal  # noqa: PLC0415
 
+    if _STOP.value:
+        return []
     # CPU time of this process, not wall-clock: an infinite loop burns it, a loaded machine does not
-    signal.signal(signal.SIGVTALRM, _alarm)
-    _HUNG["now"] = False
-    signal.setitimer(signal.ITIMER_VIRTUAL, 10 if _HUNG["count"] < 3 else 2)
+    _arm()
     out = None
     try:
         out = _replay_path(args)
@@ -293,7 +313,7 @@ def replay_path(args):
         if not _HUNG["now"]:
             raise
     finally:
-        signal.setitimer(signal.ITIMER_VIRTUAL, 0)
+        _disarm()
     if _HUNG["now"]:
         _HUNG["count"] += 1
         path, salt = args
@@ -479,6 +499,28 @@ def _replay_path(args):
 
 
 def random_history(args):
+    """Guarded like replay_path: a history in which some unwind never returns is reported as such."""
+    import signal  # noqa: PLC0415
+
+    if _STOP.value:
+        return {"ev": [], "error": None, "acct_ok": True, "skipped": True}
+    _arm()
+    try:
+        r_ = _random_history(args)
+        if not _HUNG["now"]:
+            return r_
+    except Hang:
+        pass
+    except BaseException:  # noqa: BLE001
+        if not _HUNG["now"]:
+            raise
+    finally:
+        _disarm()
+    _HUNG["count"] += 1
+    return {"ev": [], "error": "an unwind never returns (infinite loop; stopped by the CPU-time guard)", "hang": True}
+
+
+def _random_history(args):
     """A longer random history of the real ExitStack, recorded in the vocabulary of the spec."""
     import random  # noqa: PLC0415
 
@@ -543,12 +585,21 @@ def beyond_bounds(tier, seed, v):
     from .tracecheck import validate  # noqa: PLC0415
 
     n = 500 if tier == "quick" else 10000
+    hs, hangs = [], 0
     with mp.Pool(min(16, os.cpu_count() or 4)) as pool:
-        hs = pool.map(random_history, [(seed * 69621 % (2 ** 31) + i,) for i in range(n)], chunksize=32)
+        for h in results_of(pool, random_history, [(seed * 69621 % (2 ** 31) + i,) for i in range(n)], 8):
+            if h is None:
+                v.violation(*LOST)
+                break
+            hs.append(h)
+            hangs += bool(h.get("hang"))
+            if hangs >= 12:
+                _STOP.value = 1
     for h in hs:
         if h["error"]:
-            v.violation("C14/ExitStack/operation-raises", {"engine": "exitstack", "mode": "random", "observed": h["error"], "history": h["ev"][-5:]})
-    hs = [h for h in hs if not h["error"]]
+            v.violation("C14/ExitStack/unwind-never-returns" if h.get("hang") else "C14/ExitStack/operation-raises",
+                        {"engine": "exitstack", "mode": "random", "observed": h["error"], "history": h["ev"][-5:]})
+    hs = [h for h in hs if not h["error"] and not h.get("skipped")]
     const = cfg_text(16, 1000, edges=False)
     const = const[: const.index("INIT Init")]
     rejected, st = validate("ExitStackTrace", [{"cfg": {}, "ev": h["ev"]} for h in hs], extra_cfg=const, spec="Spec2")
@@ -576,6 +627,38 @@ INVARIANT OnlyOwner
 """ + ("ACTION_CONSTRAINT EmitEdge\n" if edges else "")
 
 
+def _run_chunk(args):
+    fn, chunk = args
+    return [fn(j) for j in chunk]
+
+
+def results_of(pool, fn, jobs, chunksize, idle=240):
+    """imap_unordered with a bounded wait: a worker that had to kill itself (see _alarm) takes its task with it, and
+    the result never comes.  After `idle` seconds without any result the remaining workers are killed and the
+    caller is told with a final `None`."""
+    chunks = [(fn, jobs[i: i + chunksize]) for i in range(0, len(jobs), chunksize)]
+    it = pool.imap_unordered(_run_chunk, chunks)        # chunksize 1: the iterator that has next(timeout)
+    while True:
+        try:
+            for r_ in it.next(timeout=idle):
+                yield r_
+        except StopIteration:
+            return
+        except mp.TimeoutError:
+            for p_ in list(getattr(pool, "_pool", [])):
+                try:
+                    p_.kill()
+                except Exception:  # noqa: BLE001
+                    pass
+            yield None
+            return
+
+
+LOST = ("C14/ExitStack/unwind-never-returns", {"engine": "exitstack", "spec": "ExitStack", "path": [], "salt": -1,
+                                               "expected": "the unwind completes",
+                                               "observed": "a replay had to be killed after spinning through the CPU-time guard; its result never arrived"})
+
+
 def flavour_dependence(seed):
     """C03 for exit callbacks / exit handlers: one history, all five concrete kinds of each entry class.
     A history whose replay fails for some kinds and passes for others depends on the flavour."""
@@ -584,10 +667,16 @@ def flavour_dependence(seed):
     salts = [0, 1, 2, 3, 4, 5, 6]
     jobs = [(p, s_) for p in paths for s_ in salts]
     bad = {}
+    hangs = 0
     with mp.Pool(min(16, os.cpu_count() or 4)) as pool:
-        for out in pool.imap_unordered(replay_path, jobs, chunksize=max(1, len(jobs) // 256)):
+        for out in results_of(pool, replay_path, jobs, max(1, len(jobs) // 256)):
+            if out is None:
+                break
             for sig, d in out:
                 bad.setdefault(json.dumps(d["path"]), {})[d["salt"]] = (sig, d)
+                hangs += sig.endswith("unwind-never-returns")
+            if hangs >= 12:
+                _STOP.value = 1
     found = []
     for _, per in bad.items():
         if len(per) < len(salts):
@@ -605,6 +694,7 @@ MC_ONLY = {"quick": [], "thorough": [(3, 6), (4, 5)]}
 
 def check(prop, tier, seed, into=None):
     v = into or Verdict(prop, tier, seed)
+    _STOP.value = 0
     label_counts = {}
     tot = {"states": 0, "transitions": 0, "paths": 0, "replays": 0}
     for (maxent, maxops) in TIERS[tier]:
@@ -619,10 +709,17 @@ def check(prop, tier, seed, into=None):
         tot["paths"] += len(paths)
         salts = [0, 1, 2, 3, 4] if tier == "quick" else [0, 1, 2, 3, 4, 5, 6]     # entries 1..3 + salts reach all kinds of a class (7 exit kinds, 5 callback kinds)
         jobs = [(p, s) for p in paths for s in salts]
+        hangs = 0
         with mp.Pool(min(16, os.cpu_count() or 4)) as pool:
-            for out in pool.imap_unordered(replay_path, jobs, chunksize=max(1, len(jobs) // 256)):
+            for out in results_of(pool, replay_path, jobs, max(1, len(jobs) // 256)):
+                if out is None:
+                    v.violation(*LOST)
+                    break
                 for sig, d in out:
                     v.violation(sig, d)
+                    hangs += sig.endswith("unwind-never-returns")
+                if hangs >= 12:      # every further hang costs seconds of guard time and says nothing new
+                    _STOP.value = 1
         tot["replays"] += len(jobs)
         if paths:
             v.sample({"history": [e["a"] for e in paths[len(paths) // 2]]})
